@@ -7,6 +7,7 @@
 #include <cstdint>
 #include <cstring>
 #include <map>
+#include <mutex>
 #include <string>
 #include <sys/mman.h>
 #include <unistd.h>
@@ -155,6 +156,41 @@ inline void graveyard_release()
   g_graveyard.clear();
 }
 
+// Regions released by destroyed sandboxes when SimConfig::reuse is on (shared by all threads).
+inline std::mutex g_pool_mutex;
+inline std::vector<Region> g_pool;
+inline Region region_obtain(size_t size, bool mmu, bool guard_after, bool reuse)
+{
+  if (reuse) {
+    std::lock_guard<std::mutex> lk(g_pool_mutex);
+    for (size_t i = 0; i < g_pool.size(); i++)
+      if (g_pool[i].size == size && g_pool[i].mmu == mmu) {
+        Region r = g_pool[i];
+        g_pool.erase(g_pool.begin() + (long)i);
+        memset(r.gbase, 0, r.size);
+        return r;
+      }
+  }
+  return region_alloc(size, mmu, guard_after);
+}
+inline void region_retire(Region& r, bool reuse)
+{
+  if (reuse) {
+    std::lock_guard<std::mutex> lk(g_pool_mutex);
+    g_pool.push_back(r);
+  } else {
+    g_graveyard.push_back(r);
+  }
+  r = Region();
+}
+inline void pool_release()
+{
+  std::lock_guard<std::mutex> lk(g_pool_mutex);
+  for (auto& r : g_pool)
+    region_release(r);
+  g_pool.clear();
+}
+
 inline void run_begin(Ctx* c)
 {
   g_ctx = c;
@@ -168,6 +204,7 @@ inline void run_end()
   g_fault.clear();
   g_regions.clear();
   graveyard_release();
+  pool_release();
 }
 
 // Guest libraries: name -> host function implementing it with guest-ABI
@@ -190,6 +227,8 @@ struct SimConfig
   bool mmu = false;
   bool guard_after = false;
   int slots = 8; // callback entries per instance
+  bool reuse = false; // regions of destroyed sandboxes are handed to later creates (same addresses come back)
+  bool deny_in_place = false; // impl_deny_access succeeds and hands back the in-sandbox pointer (as noop does)
 };
 
 template<typename S>
@@ -284,14 +323,29 @@ protected:
   inline bool impl_create_sandbox(int lib_id = 0)
   {
     SIM_YIELD("impl_create");
-    if (sim::g_fault.create_fail > 0) {
-      sim::g_fault.create_fail--;
+    if (sim::g_fault.create_fail == 1) {
+      sim::g_fault.create_fail = 0;
       if (sim::g_ctx)
         sim::g_ctx->fired("F6_create_fail");
       sim::bev("backend create -> FAIL");
       return false;
     }
-    mem = sim::region_alloc(cfg.size, cfg.mmu, cfg.guard_after);
+    if (sim::g_fault.create_fail == 2) {
+      // fails after it had reserved (and then gave back) its memory; like a real plug-in it does not
+      // bother to reset what it remembers about that memory
+      sim::g_fault.create_fail = 0;
+      sim::Region tmp = sim::region_obtain(cfg.size, cfg.mmu, cfg.guard_after, cfg.reuse);
+      rem_base = (uintptr_t)tmp.base;
+      rem_size = tmp.size;
+      sim::region_retire(tmp, cfg.reuse);
+      if (sim::g_ctx)
+        sim::g_ctx->fired("F6_create_fail_after_reserving_memory");
+      sim::bev("backend create -> FAIL after reserving memory");
+      return false;
+    }
+    mem = sim::region_obtain(cfg.size, cfg.mmu, cfg.guard_after, cfg.reuse);
+    rem_base = (uintptr_t)mem.base;
+    rem_size = mem.size;
     lib = lib_id;
     inst_id = sim::g_next_inst_id++;
     table.clear();
@@ -322,8 +376,8 @@ protected:
     if (mem.mmu)
       mprotect(mem.base, mem.size, PROT_READ | PROT_WRITE);
     std::memset(mem.gbase, sim::CANARY, mem.size);
-    sim::g_graveyard.push_back(mem);
-    mem = sim::Region();
+    SIM_YIELD("impl_destroy_memory_released");
+    sim::region_retire(mem, cfg.reuse);
     table.clear();
     used.clear();
     lib = -1;
@@ -357,11 +411,21 @@ protected:
   static inline uintptr_t base_from_example(const void* example, Finder finder)
   {
     if (cfg.registry) {
-      rlbox_sim_sandbox* s = finder(example);
+      in_finder = true;
+      rlbox_sim_sandbox* s = nullptr;
+      try {
+        s = finder(example);
+      } catch (...) {
+        in_finder = false;
+        throw;
+      }
+      in_finder = false;
       n_registry++;
       last_registry_inst = s ? s->inst_id : -1;
       if (s) {
-        sim::bev("registry lookup -> inst=%d", s->inst_id);
+        sim::bev("registry lookup -> inst=%d%s", s->inst_id, s->live() ? "" : " (NOT LIVE)");
+        if (!s->live())
+          return s->rem_base;
         return reinterpret_cast<uintptr_t>(s->mem.base);
       }
       sim::bev("registry lookup -> none");
@@ -454,7 +518,16 @@ protected:
     if (cfg.registry) {
       if (p1 == nullptr || p2 == nullptr)
         return p1 == p2;
-      return finder(p1) == finder(p2);
+      in_finder = true;
+      bool same = false;
+      try {
+        same = finder(p1) == finder(p2);
+      } catch (...) {
+        in_finder = false;
+        throw;
+      }
+      in_finder = false;
+      return same;
     }
     auto m = ~static_cast<uintptr_t>(cfg.size - 1);
     return (reinterpret_cast<uintptr_t>(p1) & m) == (reinterpret_cast<uintptr_t>(p2) & m);
@@ -464,6 +537,8 @@ protected:
   {
     SIM_YIELD("impl_predicate"); // the core calls this while it holds the live-sandbox list lock (shared)
     auto u = reinterpret_cast<uintptr_t>(p), b = reinterpret_cast<uintptr_t>(mem.base);
+    if (mem.base == nullptr && in_finder && rem_size != 0)
+      return u >= rem_base && u - rem_base < rem_size; // a registry entry for an object that is not live answers from stale fields
     return mem.base != nullptr && u >= b && u - b < mem.size;
   }
   inline bool impl_is_pointer_in_app_memory(const void* p)
@@ -601,7 +676,12 @@ protected:
       sim::bev("backend deny -> refused");
       return nullptr;
     }
-    // this stub never moves memory out of the region: always refuse
+    if (cfg.deny_in_place) {
+      (void)num;
+      success = true;
+      sim::bev("backend deny -> in place");
+      return src;
+    }
     (void)src;
     (void)num;
     sim::bev("backend deny -> unsupported");
@@ -609,6 +689,9 @@ protected:
   }
 
 public:
+  uintptr_t rem_base = 0; // what the object remembers about its memory (not reset by destroy / failed create)
+  size_t rem_size = 0;
+  static inline thread_local bool in_finder = false;
   uint32_t last_free_rep = 0;
   uint64_t n_frees = 0;
   uint64_t n_lookups = 0;
